@@ -27,7 +27,7 @@ def run_float(fn, params, cfg_key, seed, rtol=1e-8, tier="quick"):
     """the harness on the real float code (no stubs, no patches)"""
     B = FloatBackend(cfg_key, seed, rtol, tier)
     err = None
-    with warnings.catch_warnings():
+    with warnings.catch_warnings(), stubs.recorders(B):
         warnings.simplefilter("ignore")
         try:
             fn(B, **params)
